@@ -1234,17 +1234,17 @@ func main() {
 			jobs = append(jobs, job{fam, c, per})
 		}
 	}
-	// predicates: quick ~35 k, thorough ~3 M
-	addJobs("bitflip", run.N(12, 300), run.N(1, 1))     // ~1100-1350 cases per triple
-	addJobs("schnorr-flip", run.N(4, 100), run.N(1, 1)) // 1025 cases per triple
+	// predicates: quick ~32 k, thorough ~3 M
+	addJobs("bitflip", run.N(10, 300), run.N(1, 1))     // ~1100-1350 cases per triple
+	addJobs("schnorr-flip", run.N(3, 100), run.N(1, 1)) // 1025 cases per triple
 	addJobs("tweak-flip", run.N(2, 50), run.N(1, 1))    // 769 cases per triple
-	addJobs("valid", run.N(4, 64), run.N(500, 5000))
-	addJobs("rs-edge", run.N(4, 64), run.N(800, 8000))
-	addJobs("key-enc", run.N(4, 64), run.N(700, 8000))
-	addJobs("algebraic", run.N(2, 32), run.N(300, 4000))
-	addJobs("schnorr-valid", run.N(2, 32), run.N(400, 5000))
-	addJobs("schnorr-edge", run.N(4, 64), run.N(600, 8000))
-	addJobs("tweak", run.N(4, 64), run.N(800, 8000))
+	addJobs("valid", run.N(4, 64), run.N(400, 5000))
+	addJobs("rs-edge", run.N(4, 64), run.N(700, 8000))
+	addJobs("key-enc", run.N(4, 64), run.N(600, 8000))
+	addJobs("algebraic", run.N(2, 32), run.N(250, 4000))
+	addJobs("schnorr-valid", run.N(2, 32), run.N(300, 5000))
+	addJobs("schnorr-edge", run.N(4, 64), run.N(500, 8000))
+	addJobs("tweak", run.N(4, 64), run.N(700, 8000))
 	// signers: quick 2 k, thorough 200 k
 	addJobs("sign-rfc6979", run.N(4, 64), run.N(150, 800))
 	addJobs("sign-random", run.N(4, 64), run.N(125, 800))
